@@ -13,8 +13,8 @@ from . import mcmc_common as mc
 PROPERTY = 'C08'
 FUNCTIONS = ['cuqi.experimental.mcmc.NUTS._Leapfrog/_BuildTree/step/tune/_pre_warmup/_pre_sample/_Kfun/_nuts_target',
              'cuqi.sampler.NUTS._Leapfrog/_BuildTree/_sample/_Kfun/_nuts_target']
-BOUNDS = {'dims': '1, 2', 'tree depth': '_BuildTree driven as a unit from an ARBITRARY symbolic (theta, r, grad T(theta), H0, log u) for j = 0, 1 (quick) / 2 (thorough, fork budget)',
-          'step': 'one transition from an arbitrary symbolic pre-state with max_depth 0 (quick) / 1 (thorough, fork budget); symbolic step size; target and gradient uninterpreted',
+BOUNDS = {'dims': '1, 2', 'tree depth': '_BuildTree driven as a unit from an ARBITRARY symbolic (theta, r, grad T(theta), H0, log u) for j = 0, 1 (quick: j = 1 with step size 1/2) / 2 (thorough, fork budget)',
+          'step': 'one transition from an arbitrary symbolic pre-state with max_depth 0 (quick, d = 1) / 1 (thorough, time-boxed); symbolic step size; target and gradient uninterpreted',
           'volume': 'polynomial targets of degree <= 4 (d=1) / <= 3 (d=2) with symbolic coefficients',
           'non-finite': 'leaf log-density nan / -inf / +inf in the first doubling',
           'dual averaging': 'one tune() call from an arbitrary symbolic (H_bar, epsilon_bar, mu, alpha ratio), update counts 0..3; legacy: 2 adaptive transitions with _FindGoodEpsilon replaced by a symbolic positive value'}
@@ -38,20 +38,20 @@ def configs(tier, seed=0):
         for v in [-1, 1]:
             for d in [1, 2]:
                 out.append({'key': '%s/tree/j0/v%+d/d%d' % (iface, v, d), 'kind': 'tree', 'iface': iface, 'dim': d, 'j': 0, 'v': v})
-            out.append({'key': '%s/tree/j1/v%+d/d1' % (iface, v), 'kind': 'tree', 'iface': iface, 'dim': 1, 'j': 1, 'v': v, 'fork_budget': 14})
+            if tier == 'quick':
+                # concrete dyadic step size: the U-turn tests are then linear and the exploration takes seconds on any machine (symbolic step size: thorough tier)
+                out.append({'key': '%s/tree/j1/v%+d/d1/eps0.5' % (iface, v), 'kind': 'tree', 'iface': iface, 'dim': 1, 'j': 1, 'v': v, 'fork_budget': 14, 'eps': 0.5})
+            else:
+                out.append({'key': '%s/tree/j1/v%+d/d1' % (iface, v), 'kind': 'tree', 'iface': iface, 'dim': 1, 'j': 1, 'v': v, 'fork_budget': 14, 'time_budget': 3000})
             if tier != 'quick':
                 for e in [0.5, 2.0]:
                     out.append({'key': '%s/tree/j1/v%+d/d2/eps%s' % (iface, v, e), 'kind': 'tree', 'iface': iface, 'dim': 2, 'j': 1, 'v': v, 'fork_budget': 14, 'eps': e})
                 out.append({'key': '%s/tree/j2/v%+d/d1/eps0.5' % (iface, v), 'kind': 'tree', 'iface': iface, 'dim': 1, 'j': 2, 'v': v, 'fork_budget': 40, 'allow_cut': True, 'stretch': True,
                             'time_budget': 1500, 'eps': 0.5, 'max_paths': 20000})
-        for d in [1, 2]:
+        for d in ([1] if tier == 'quick' else [1, 2]):
             out.append({'key': '%s/step/depth0/d%d' % (iface, d), 'kind': 'step', 'iface': iface, 'dim': d, 'max_depth': 0, 'nf': None})
         for nf in ['nan', '-inf', '+inf']:
             out.append({'key': '%s/step/depth0/d1/nonfinite%s' % (iface, nf), 'kind': 'step', 'iface': iface, 'dim': 1, 'max_depth': 0, 'nf': nf})
-        if tier == 'quick':
-            # a time-boxed part of the depth-1 exploration (the full one is in the thorough tier); unexplored alternatives are counted as cut
-            out.append({'key': '%s/step/depth1/d1/eps0.5' % iface, 'kind': 'step', 'iface': iface, 'dim': 1, 'max_depth': 1, 'nf': None, 'fork_budget': 40, 'allow_cut': True, 'timeboxed': True,
-                        'time_budget': 80, 'eps': 0.5, 'max_paths': 20000, 'timeout_ms': 60000})
         if tier != 'quick':
             out.append({'key': '%s/step/depth1/d1/eps0.5' % iface, 'kind': 'step', 'iface': iface, 'dim': 1, 'max_depth': 1, 'nf': None, 'fork_budget': 40, 'allow_cut': True, 'stretch': True,
                         'time_budget': 1500, 'eps': 0.5, 'max_paths': 20000})
@@ -65,7 +65,12 @@ def configs(tier, seed=0):
     for d in [1, 2]:
         for how in ['initialize', 'sample', 'warmup', 'reinitialize']:
             out.append({'key': 'exp/init/%s/d%d' % (how, d), 'kind': 'init', 'iface': 'exp', 'dim': d, 'how': how})
-    out.append({'key': 'legacy/gradient-cache/depth0/d1', 'kind': 'legacy-cache', 'iface': 'legacy', 'dim': 1, 'max_depth': 0, 'eps': 0.5, 'fork_budget': 40, 'max_paths': 3000})
+    if tier == 'quick':
+        # the first 150 of the 1024 paths of two consecutive transitions (all of them in the thorough tier)
+        out.append({'key': 'legacy/gradient-cache/depth0/d1', 'kind': 'legacy-cache', 'iface': 'legacy', 'dim': 1, 'max_depth': 0, 'eps': 0.5, 'fork_budget': 40, 'max_paths': 150,
+                    'timeboxed': True, 'allow_cut': True})
+    else:
+        out.append({'key': 'legacy/gradient-cache/depth0/d1', 'kind': 'legacy-cache', 'iface': 'legacy', 'dim': 1, 'max_depth': 0, 'eps': 0.5, 'fork_budget': 40, 'max_paths': 3000})
     if tier != 'quick':
         out.append({'key': 'legacy/gradient-cache/depth0/d2', 'kind': 'legacy-cache', 'iface': 'legacy', 'dim': 2, 'max_depth': 0, 'eps': 0.5, 'fork_budget': 40, 'max_paths': 3000})
     out.append({'key': 'legacy/adapt', 'kind': 'legacy-adapt', 'iface': 'legacy', 'dim': 1, 'fork_budget': 10, 'allow_cut': True})
